@@ -21,17 +21,18 @@ import (
 	"github.com/prometheus/alertmanager/nflog"
 	pb "github.com/prometheus/alertmanager/nflog/nflogpb"
 
+	"verifharness/nfrace"
 	"verifharness/vh"
 )
 
 // ---- JSON/replayable form of a case ----
 
 type DataV struct {
-	K    string  `json:"k"`
-	Kind string  `json:"kind"` // str|int|dbl
-	S    string  `json:"s,omitempty"`
-	I    int64   `json:"i,omitempty"`
-	F    uint64  `json:"fbits,omitempty"` // float64 bit pattern
+	K    string `json:"k"`
+	Kind string `json:"kind"` // str|int|dbl
+	S    string `json:"s,omitempty"`
+	I    int64  `json:"i,omitempty"`
+	F    uint64 `json:"fbits,omitempty"` // float64 bit pattern
 }
 
 type Ent struct {
@@ -71,7 +72,9 @@ var receivers = []*pb.Receiver{
 }
 var gkeys = []string{`{}:{alertname="a"}`, `{}/{job="x"}:{}`}
 
-func recvKey(r *pb.Receiver) string { return fmt.Sprintf("%s/%s/%d", r.GroupName, r.Integration, r.Idx) }
+func recvKey(r *pb.Receiver) string {
+	return fmt.Sprintf("%s/%s/%d", r.GroupName, r.Integration, r.Idx)
+}
 
 func toPB(e Ent) *pb.MeshEntry {
 	m := &pb.MeshEntry{Entry: &pb.Entry{GroupKey: []byte(e.GKey), Receiver: receivers[e.Recv],
@@ -268,8 +271,8 @@ type obs struct {
 	now  int64
 	coq  string // Coq term of type out
 	tag  string
-	ent  *pb.MeshEntry   // for log/query
-	all  []*pb.Entry     // state of the 4 keys after the op (nil = not found)
+	ent  *pb.MeshEntry // for log/query
+	all  []*pb.Entry   // state of the 4 keys after the op (nil = not found)
 	err  error
 	nbc  int
 	bcs  []*pb.MeshEntry // broadcast entries of a Log
@@ -539,7 +542,11 @@ func TestCheck(t *testing.T) {
 	env := vh.GetEnv()
 	run := vh.NewRun(env, "AM.Run.C10Run")
 	var cases []Case
-	if env.Replay != "" {
+	race := nfrace.Default(env, false)
+	if rp := nfrace.ReplayParams(env.Replay); env.Replay != "" && rp != nil {
+		race = *rp
+	} else if env.Replay != "" {
+		race.Rounds = 0
 		var c Case
 		if err := vh.LoadReplayCase(env.Replay, &c); err != nil {
 			t.Fatal(err)
@@ -574,6 +581,12 @@ func TestCheck(t *testing.T) {
 			run.Count("cases_with_op", k)
 		}
 		run.Count("history_len", fmt.Sprintf("%02d-%02d", len(c.Ops)/5*5, len(c.Ops)/5*5+4))
+	}
+	// concurrent engine: real Log / GC / Merge / Query racing at one instant, judged against the order-independent
+	// result (c10_gc_position_irrelevant, c10_logged_entry_survives_concurrent_gc, c10_gc_merge_commute)
+	if race.Rounds > 0 {
+		st, fs := nfrace.Run(t, race)
+		nfrace.Report(run, st, fs)
 	}
 	if err := run.Finish("random histories of Log/Merge/GC/Query/Reload over 2 group keys x 2 receivers under synctest virtual time; after every op all 4 keys are queried; non-trivial = has a Merge and (a Log or a GC that removed something); distinct by full history text"); err != nil {
 		t.Fatal(err)
